@@ -19,7 +19,19 @@
    - causality: a request copy is received after it was sent, a reply copy
      arrives after it was stamped (ex_ok, arrival_ok), whatever theta is;
    - for the numeric bound: all stamps within 2^31 s of the client's clock
-     reading and durations below 2^61 ns (stamps_near). *)
+     reading and durations below 2^61 ns (stamps_near).
+
+   Scope of the bound: t0 (q_ctx) and t3 (crx) are the stamps of the departure
+   of the request and of the arrival of the reply (ex_ok: q_ctx + theta <= srx,
+   arrival_ok: stx - theta <= crx), i.e. the KERNEL transmit / receive
+   timestamps.  When the kernel transmit timestamp cannot be read the clients
+   fall back to cTxTime1 = timebase.Now() taken after udp.ReadTXTimestamp's 1 ms
+   poll, about 1-2 ms after the request left (likewise t3 = Now() after the read):
+   then q_ctx + theta <= srx fails, the theorem does not apply, and on the real
+   code the reported offset is off by about that much, far beyond half the
+   computed round-trip delay.  That is a recorded finding (KNOWN_FINDINGS.txt,
+   id clock-fallback-t0), reproduced on every run by case kind c03.fallback with
+   the same oracle. *)
 From ST Require Import Base.Ints Model.NtpTime Model.Exchange Model.ExchangeOracle Model.ExchangeWorld
   Proofs.NtpTimeProofs Proofs.ExchangeProofs.
 From Coq Require Import ZArith List.
